@@ -497,6 +497,56 @@ Proof.
   rewrite M. destruct (variance_sub_self E (m_mag m)) as [V N]. repeat split; assumption.
 Qed.
 
+(** * Derived measurements stay correlated with their ancestors *)
+Lemma covariance_affine_r E s o a b : covariance E a (aff_affine s o b) = (s * covariance E a b)%Qc.
+Proof. rewrite (cov_comm E a), covariance_affine_l. rewrite (cov_comm E b). reflexivity. Qed.
+(** re-wrapping keeps the uncertain number: wrap(a) − a has no uncertainty *)
+Lemma rewrap_identity E a u :
+  m_mag (meas_wrap a u) = a ∧ m_units (meas_wrap a u) = u
+  ∧ variance E (aff_sub (m_mag (meas_wrap a u)) a) = 0%Qc
+  ∧ covariance E (m_mag (meas_wrap a u)) a = variance E a.
+Proof.
+  repeat split; try reflexivity. simpl. exact (proj1 (variance_sub_self E a)).
+Qed.
+(** c·m − m: σ = |c − 1|·σ_m, not the root sum of squares *)
+Lemma derived_scale_sub E c a :
+  variance E (aff_sub (aff_affine c 0 a) a) = ((c - 1) * (c - 1) * variance E a)%Qc.
+Proof. rewrite variance_sub, variance_affine, covariance_affine_l, cov_self. ring. Qed.
+(** (m + m) + m: σ = 3·σ_m *)
+Lemma derived_add_add E a :
+  variance E (aff_add (aff_add a a) a) = ((1 + 1 + 1) * (1 + 1 + 1) * variance E a)%Qc.
+Proof.
+  unfold variance. simpl. rewrite <- wsum_scale. apply wsum_ext. intros i.
+  rewrite !dcoef_dlin. ring.
+Qed.
+(** m − (m converted there and back): any two conversions whose slopes multiply to one *)
+Lemma derived_convert_back E a s1 o1 s2 o2 :
+  (s2 * s1 = 1)%Qc →
+  variance E (aff_sub a (aff_affine s2 o2 (aff_affine s1 o1 a))) = 0%Qc.
+Proof.
+  intros H. rewrite variance_sub, !variance_affine, !covariance_affine_r, cov_self.
+  replace (s2 * s2 * (s1 * s1 * variance E a))%Qc with ((s2 * s1) * (s2 * s1) * variance E a)%Qc by ring.
+  replace (2 * (s2 * (s1 * variance E a)))%Qc with (2 * (s2 * s1) * variance E a)%Qc by ring.
+  rewrite H. ring.
+Qed.
+(** m − m.to(u): one conversion, compared in m's units (the other operand is converted back) *)
+Lemma derived_convert_sub E a s o :
+  variance E (aff_sub a (aff_affine s o a)) = ((1 - s) * (1 - s) * variance E a)%Qc.
+Proof. rewrite variance_sub, variance_affine, covariance_affine_r, cov_self. ring. Qed.
+(** (m·t)/m carries exactly t's uncertainty *)
+Lemma derived_mul_div E a b c :
+  aff_div (aff_mul a b) a = Ok c → variance E c = variance E b ∧ nom c = nom b.
+Proof.
+  unfold aff_div. simpl. destruct (qz (nom a)) eqn:Z; [discriminate|]. apply qz_false in Z.
+  intros [= <-]. split.
+  - unfold variance. simpl. apply wsum_ext. intros i. rewrite !dcoef_dlin.
+    assert (D : (/ nom a * (nom b * dcoef (der a) i + nom a * dcoef (der b) i)
+                 + - (nom a * nom b / (nom a * nom a)) * dcoef (der a) i = dcoef (der b) i)%Qc)
+      by (field; exact Z).
+    rewrite D. reflexivity.
+  - simpl. field. exact Z.
+Qed.
+
 (** * [join_unc]: parentheses are added iff absent *)
 Lemma join_unc_spec sep lpar rpar m u :
   (String.prefix lpar m = false → ends_with rpar m = false →
